@@ -21,7 +21,7 @@ ASSUMPTIONS = [
     "multiprocessing.Pool replaced by an order-preserving serial starmap (validated by C15; a sample here runs the real pool)",
     "ties / guard-band cases are judged by best-first consistency of the library's own assignment, not by equality",
 ]
-MINIMUM = {"evaluations": 2000, "unique_matching": 500}
+MINIMUM = {"evaluations": 2000, "unique_matching": 500, "f:decision.IOU": 100, "f:decision.DSC": 100, "f:decision.ASSD": 100, "f:decision_rejected_an_instance": 100}
 BUDGET_S = {"quick": 200, "thorough": 2400}
 
 TINY = {
@@ -107,7 +107,7 @@ def run_pair(ctx, pred, refa, its, rot, tier, fam):
                     ctx.count("f:metric." + mc["metric"])
                 # decision metric on a rotating schedule, only where something is matched
                 if info.get("exp") and info["exp"]["tp"] > 0 and (mi + rot) % 2 == 0:
-                    for dm, dt in decision_cfgs(rot + mi, pred, refa, it, backend, info["exp"]):
+                    for dm, dt in decision_cfgs((rot + mi) // 2, pred, refa, it, backend, info["exp"]):
                         if dm is None:
                             continue
                         cfg2 = dict(cfg, dm=dm, dt=dt)
